@@ -28,7 +28,10 @@ CONSTANTS
   InPids,                  \* identifiers of inbound PUBLISH packets
   ExtraPids,               \* identifiers used for unmatched acknowledgements / probes
   Rcs,                     \* reason codes of acknowledgements (0, 128)
-  Cleans, SPs, KAs, RMs, TAMs, MPSs, SEIs, SKAs, ConnackRcs,   \* handshake alphabets (-1 = absent)
+  Cleans, KAs, ConnRMs, ConnTAMs, ConnMPSs, ConnSEIs,         \* CONNECT alphabets (99999 = absent)
+  SPs, ConnackRcs, AckRMs, AckTAMs, AckMPSs, AckSEIs, SKAs,   \* CONNACK alphabets
+  RogueHandshake,          \* the peer also sends CONNECT / CONNACK where none is expected
+  PartialFrames,           \* the transport may deliver only the first bytes of a frame before it is lost
   Intervals,               \* values for set_pingreq_send_interval (-1 = None); {} = never called
   Fire, Close, Erase, IdOps, Crash, Garbage, BadFrames, SendWhileDisc, PeerWhileDisc
 
@@ -49,14 +52,14 @@ ConnectPkts(ver) ==
   { Sized([Pk("connect", ver) EXCEPT !.clean = cl, !.ka = ka,
              !.rm = IF ver = "v50" THEN V(rm) ELSE -1, !.tam = IF ver = "v50" THEN V(tam) ELSE -1,
              !.mps = IF ver = "v50" THEN V(mps) ELSE -1, !.sei = IF ver = "v50" THEN V(sei) ELSE -1], 16)
-    : cl \in Cleans, ka \in KAs, rm \in RMs, tam \in TAMs, mps \in MPSs, sei \in SEIs }
+    : cl \in Cleans, ka \in KAs, rm \in ConnRMs, tam \in ConnTAMs, mps \in ConnMPSs, sei \in ConnSEIs }
 
 ConnackPkts(ver) ==
   { Sized([Pk("connack", ver) EXCEPT !.sp = sp /\ rc = 0, !.rc = rc,
              !.rm = IF ver = "v50" /\ rc = 0 THEN V(rm) ELSE -1, !.tam = IF ver = "v50" /\ rc = 0 THEN V(tam) ELSE -1,
              !.mps = IF ver = "v50" /\ rc = 0 THEN V(mps) ELSE -1, !.sei = IF ver = "v50" /\ rc = 0 THEN V(sei) ELSE -1,
              !.ska = IF ver = "v50" /\ rc = 0 THEN V(ska) ELSE -1], 16)
-    : sp \in SPs, rc \in ConnackRcs, rm \in RMs, tam \in TAMs, mps \in MPSs, sei \in SEIs, ska \in SKAs }
+    : sp \in SPs, rc \in ConnackRcs, rm \in AckRMs, tam \in AckTAMs, mps \in AckMPSs, sei \in AckSEIs, ska \in SKAs }
 
 PublishPkts(ver, pids, idw) ==
   { Sized([Pk("publish", ver) EXCEPT !.qos = q, !.pid = IF q = 0 THEN 0 ELSE pid, !.topic = t,
@@ -95,12 +98,17 @@ PeerFrames(s, gh) ==
   \cup { Sized(Pk(k, v), s.idw) : k \in PeerKinds \cap {"pingreq", "pingresp", "disconnect"} }
   \cup (IF "auth" \in PeerKinds THEN { Sized(Pk("auth", "v50"), s.idw) } ELSE {})
   \cup { [Sized(Pk(k, v), s.idw) EXCEPT !.bad = "MalformedPacket"] : k \in BadFrames }
+  \cup (IF RogueHandshake /\ gh.conn # "disc"
+        THEN { Sized([Pk("connect", v) EXCEPT !.clean = TRUE], 16) } ELSE {})
+  \cup (IF RogueHandshake /\ gh.conn = "connected"
+        THEN { Sized(Pk("connack", v), 16), Sized([Pk("connack", v) EXCEPT !.sp = FALSE, !.rm = IF v = "v50" THEN 1 ELSE -1], 16) }
+        ELSE {})
 
 CanBeClient(s) == s.role \in {"client", "any"}
 CanBeServer(s) == s.role \in {"server", "any"}
 
 EnvChoices(s, gh) ==
-  LET quiet == gh.closeReq           \* after a close request the application only reports the close
+  LET quiet == gh.closeReq \/ s.partial   \* after a close request (or a cut frame) only the close is reported
       disc == gh.conn = "disc" /\ ~gh.tr
   IN
   (* handshake *)
@@ -120,10 +128,16 @@ EnvChoices(s, gh) ==
   \cup (IF ~quiet /\ ((gh.conn = "connected" /\ gh.tr) \/ (PeerWhileDisc /\ (gh.tr \/ CanBeServer(s))))
         THEN { [Call("recv") EXCEPT !.pkt = p, !.flag = TRUE] : p \in PeerFrames(s, gh) } ELSE {})
   \cup (IF ~quiet /\ Garbage /\ gh.tr THEN { Call("garbage") } ELSE {})
+  \cup (IF ~quiet /\ PartialFrames /\ gh.tr /\ gh.conn = "connected"
+        THEN { [Call("recv") EXCEPT !.pkt = Sized([Pk("publish", Ver(s)) EXCEPT !.topic = "t1", !.msg = "m1"], s.idw), !.flag = FALSE] } ELSE {})
   (* timers, transport *)
   \cup (IF Fire /\ s.ver # "undet" THEN { [Call("fire") EXCEPT !.k = k] : k \in gh.armed } ELSE {})
   \cup (IF gh.tr /\ (Close \/ quiet) THEN { Call("closed") } ELSE {})
-  \cup (IF Crash /\ gh.tr /\ gh.nconn >= 1 THEN { Call("crash") } ELSE {})
+  \* the process dies: identifiers acquired but not yet used die with it, so crash points are taken where none is held
+  \* ... and none where a QoS 2 exchange waits for the APPLICATION to send its PUBREL: that duty is application
+  \* state, not part of the export (DESIGN.md, C16 reading)
+  \cup (IF Crash /\ gh.tr /\ gh.nconn >= 1 /\ gh.held = {} /\ ~(\E e \in gh.await : e.kind = "pubrel")
+        THEN { Call("crash") } ELSE {})
   (* identifiers *)
   \cup (IF ~quiet /\ Cardinality(gh.held) < MaxHeld /\ Cardinality(gh.used) < MaxUsed THEN { Call("acquire") } ELSE {})
   \cup (IF ~quiet /\ IdOps
@@ -170,7 +184,8 @@ Next ==
          base == IF c.op = "crash"
                  THEN [mode |-> "restored", st |-> RestoreQos2(RestorePackets(FreshLike(st, st.ver), st.store), st.qos2)]
                  ELSE IF spawnFresh THEN [mode |-> "fresh", st |-> FreshLike(st, st.ver)]
-                 ELSE IF spawnFixed THEN [mode |-> "fixed", st |-> FreshLike(st, c.pkt.ver)]
+                 \* a fixed-version server that went through the same identifier-management calls
+                 ELSE IF spawnFixed THEN [mode |-> "fixed", st |-> [FreshLike(st, c.pkt.ver) EXCEPT !.pool = st.pool]]
                  ELSE sh
          aF == IF base.mode = "none" \/ c.op = "crash" THEN [st |-> base.st, out |-> <<>>, call |-> c]
                ELSE Apply(base.st, c)
@@ -198,7 +213,7 @@ DesignViol(s, gh) ==
   \cup (IF { e.pid : e \in gh.await } # s.puback \cup s.pubrec \cup s.pubcomp \cup s.relPend THEN {"G-await"} ELSE {})
 
 Brief(h) == [i \in DOMAIN h |-> << h[i].op, h[i].pkt.kind, h[i].pkt.pid, h[i].pkt.qos, h[i].pkt.clean, h[i].pkt.sp,
-                                   h[i].pkt.rc, h[i].pkt.rm, h[i].pkt.sei, h[i].id, h[i].k, h[i].name >>]
+                                   h[i].pkt.rc, h[i].pkt.rm, h[i].pkt.sei, h[i].id, h[i].k, h[i].name, h[i].pkt.topic, h[i].pkt.alias, h[i].pkt.tam, h[i].pkt.mps >>]
 
 NoViolation ==
   [][LET v == Viol(CheckProps, g, rec, rec', g') \cup DesignViol(st', g')
